@@ -572,10 +572,41 @@ fn worker_channel_probe() -> Option<Failure> {
     Some(Failure { kind: "impl-vs-oracle", detail: format!("worker pool deadlock: 1 worker thread, {i} writes of 200 bytes with a 4 KiB memtable limit filled the worker channel (1000 rotation requests) while the worker was busy; the worker then rotated the memtable and made no progress for 60 s ({left} messages still queued, no table flushed): it waits for room in the channel it is itself supposed to drain - flushes and compactions never run again, writers halt for good at 4 sealed memtables, Database::drop hangs"), witness: None })
 }
 
+/// Known finding F27 (C14): point reads read the latest state, scans read at the snapshot instant, which the
+/// write floor keeps below a write that is between its memtable apply and its publish.  In that window one
+/// thread can `get` a value and then not find it in a scan it opens afterwards: the two reads cannot be
+/// ordered with the write.  Deterministic schedule through the `write.item` pause point.
+fn witness_f27() -> Option<Failure> {
+    use std::sync::atomic::{AtomicBool, Ordering};
+    static PARKED: AtomicBool = AtomicBool::new(false);
+    static GO: AtomicBool = AtomicBool::new(false);
+    let scratch = Scratch::new("f27");
+    let db = Database::builder(scratch.join("db")).open().ok()?;
+    let a = db.keyspace("a", KeyspaceCreateOptions::default).ok()?;
+    a.insert("k0", "v0").ok()?;
+    PARKED.store(false, Ordering::Release); GO.store(false, Ordering::Release);
+    fjall::verif::pause::set(Some(Arc::new(|name: &'static str| {
+        if name == "write.item" && std::thread::current().name() == Some("f27-writer") { PARKED.store(true, Ordering::Release); while !GO.load(Ordering::Acquire) { std::thread::sleep(Duration::from_millis(1)); } }
+    })));
+    let a2 = a.clone();
+    let h = std::thread::Builder::new().name("f27-writer".into()).spawn(move || a2.insert("k1", "v1")).ok()?;
+    let t0 = Instant::now();
+    while !PARKED.load(Ordering::Acquire) && t0.elapsed() < Duration::from_secs(30) { std::thread::sleep(Duration::from_millis(1)); }
+    let got = a.get("k1").ok()?.is_some();
+    let scanned = a.iter().filter_map(|g| g.into_inner().ok()).any(|(k, _)| &*k == b"k1");
+    GO.store(true, Ordering::Release);
+    let _ = h.join();
+    fjall::verif::pause::set(Some(Arc::new(hook)));
+    if got && !scanned {
+        Some(Failure { kind: "impl-vs-oracle", detail: "while insert(k1) is between its memtable apply and its publish, get(k1) returns the value and a scan opened afterwards by the same thread does not contain k1: the get, the scan and the write cannot be put in one order".into(), witness: Some("F27".into()) })
+    } else { None }
+}
+
 fn main() {
     let args: Vec<String> = std::env::args().collect();
     let mut replay = None;
     let mut nofloor = false;
+    let mode_c14 = args.windows(2).any(|w| w[0] == "--mode" && w[1] == "c14");
     let mut i = 1;
     while i < args.len() {
         if args[i] == "--replay-seed" { replay = args[i + 1].parse().ok(); i += 1; }
@@ -598,6 +629,7 @@ fn main() {
     let mut cases = 0;
     if replay.is_none() { if let Some(f) = stall_probe() { all.push((0, f)); } *hist.entry("stall-probe".to_string()).or_insert(0) += 1; }
     if replay.is_none() { if let Some(f) = worker_channel_probe() { all.push((0, f)); } *hist.entry("worker-channel-probe".to_string()).or_insert(0) += 1; }
+    if replay.is_none() && mode_c14 { if let Some(f) = witness_f27() { all.push((0, f)); } *hist.entry("witness-f27".to_string()).or_insert(0) += 1; }
     for cs in seeds {
         let res = std::panic::catch_unwind(std::panic::AssertUnwindSafe(|| run_case(cs, &mut lean, &mut hist, &mut samples, thorough, nofloor)));
         cases += 1;
